@@ -105,19 +105,36 @@ def rules(ck, P):
                         if p.get("k") == "if":
                             guard = p
                             break
+            def is_cov_test(c):
+                c = ir.unparen(c)
+                return c.get("k") == "mcall" and c.get("name") == "contains_coord" and ir.place_str(c["recv"]) == "self.parameters.bbox_pyramid" and al.hid(c["a"][0]) == cp[0]["hid"]
             okg = False
+            unchanged = False
             if guard is not None:
-                c = ir.unparen(guard["c"])
-                okg = c.get("k") == "mcall" and c.get("name") == "contains_coord" and ir.place_str(c["recv"]) == "self.parameters.bbox_pyramid" and \
-                    al.hid(c["a"][0]) == cp[0]["hid"] and ir.contains(guard["then"], lambda y: y is fw[0])
+                # form A: if covered { forward } else { Ok(None) }
+                okg = is_cov_test(guard["c"]) and ir.contains(guard["then"], lambda y: y is fw[0])
                 els = guard.get("else")
                 okg = okg and els is not None and ir.contains(els, lambda y: (y.get("q") or "").endswith("Option::None::{Ctor#0}")) and not ir.contains(els, lambda y: y.get("k") == "mcall" and y.get("name") == "get_tile_data")
+                then_tail = ir.unparen(guard["then"])
+                tail = then_tail.get("tail") if then_tail and then_tail.get("k") == "block" else then_tail
+                unchanged = tail is not None and (tail is fw[0] or (tail.get("k") == "await" and tail["e"] is fw[0]))
+            else:
+                # form B: if !covered { return Ok(None) }  …  forward as the function's value
+                sts_ = ir.stmts_of(ir.fn_block(gtd))
+                fi = next((i for i, st_ in enumerate(sts_) if ir.contains(st_, lambda y: y is fw[0])), None)
+                for st_ in (sts_[:fi] if fi is not None else []):
+                    x = st_["e"] if st_.get("k") == "semi" else st_
+                    if x.get("k") == "if" and "else" not in x and ir.diverges(x["then"]):
+                        c = ir.unparen(x["c"])
+                        if c.get("k") == "un" and c.get("op") == "!" and is_cov_test(c["e"]) and ir.contains(x["then"], lambda y: (y.get("q") or "").endswith("Option::None::{Ctor#0}")) and \
+                                not ir.contains(x["then"], lambda y: (y.get("q") or "").endswith("Result::Err::{Ctor#0}")):
+                            okg = True
+                if fi is not None and fi == len(sts_) - 1:
+                    tail = ir.unparen(sts_[fi])
+                    unchanged = tail is fw[0] or (tail.get("k") == "await" and tail["e"] is fw[0])
             ck.check(okg, "R-FILTER", short + "|lookup-guard", "lookup is forwarded only if self.parameters.bbox_pyramid.contains_coord(coord), else Ok(None)",
                      "lookup is not guarded by containment in the narrowed coverage: tiles outside the filter are returned", ir.loc(gtd))
-            # blob unchanged: the forwarded call's value is the branch value
-            then_tail = ir.unparen(guard["then"]) if guard else None
-            tail = then_tail.get("tail") if then_tail and then_tail.get("k") == "block" else then_tail
-            unchanged = tail is not None and (tail is fw[0] or (tail.get("k") == "await" and tail["e"] is fw[0]))
+            # blob unchanged: the forwarded call's value is the branch / function value
             ck.check(unchanged, "R-FILTER", short + "|lookup-unchanged", "the source's answer is returned unchanged", "the source's answer is post-processed by a filter", ir.loc(gtd))
         # ---- (iii) stream
         fs = [n for n in ir.walk_nodes(gts["body"]) if n.get("k") == "mcall" and (n.get("q") or "").endswith("OperationTrait::get_tile_stream")]
